@@ -78,11 +78,7 @@ def seq_axioms():
     fa([s, x], z3.And(Len(Append1(s, x)) == Len(s) + 1, At(Append1(s, x), Len(s)) == x), [Append1(s, x)])
     fa([s, x, i], z3.Implies(z3.And(0 <= i, i < Len(s)), At(Append1(s, x), i) == At(s, i)),
        [At(Append1(s, x), i)])
-    fa([s, x, i], z3.Implies(z3.And(0 <= i, i < Len(s)), At(Append1(s, x), i) == At(s, i)),
-       [z3.MultiPattern(Append1(s, x), At(s, i))])
     fa([s, x, y], Contains(Append1(s, x), y) == z3.Or(y == x, Contains(s, y)), [Contains(Append1(s, x), y)])
-    fa([s, x, y], z3.Implies(Contains(s, y), Contains(Append1(s, x), y)),
-       [z3.MultiPattern(Append1(s, x), Contains(s, y))])
     fa([s, x, y], z3.Implies(Contains(s, y), IndexOf(Append1(s, x), y) == IndexOf(s, y)),
        [IndexOf(Append1(s, x), y)])
     # RemoveAt
@@ -153,7 +149,10 @@ def psumi_facts(s, n):
 
 def elem_fact(s, i):
     """facts about the element at position i of s, valid when 0 <= i < Len(s)"""
-    return z3.And(Contains(s, At(s, i)), 0 <= IndexOf(s, At(s, i)), IndexOf(s, At(s, i)) <= i)
+    # stated through IndexOf only: a Contains term here would trigger the membership witness, whose new
+    # At term would trigger this fact again (a chain for positions whose range is unknown).  Whenever a
+    # goal mentions Contains(s, At(s, i)) the axiom Contains <=> IndexOf >= 0 closes the gap.
+    return z3.And(0 <= IndexOf(s, At(s, i)), IndexOf(s, At(s, i)) <= i)
 
 
 def index_fact(s, x):
